@@ -459,4 +459,131 @@ theorem loopsCall_hasIntArr (s : Sig) (c : Call) (h : c.hasIntArr = false) : (lo
             rw [he]; simp
           exact hk' _ hm
 
+
+theorem lookup_none_of_not_key (junk : PDict) (k : String) (h : ∀ p ∈ junk, p.1 ≠ k) : junk.lookup k = none := by
+  induction junk with
+  | nil => rfl
+  | cons q t ih =>
+    obtain ⟨qk, qv⟩ := q
+    have hq : qk ≠ k := h (qk, qv) (by simp)
+    have : (k == qk) = false := by simp [Ne.symm hq]
+    simp only [List.lookup, this]
+    exact ih (fun p hp => h p (by simp [hp]))
+
+/-- `loops` forwards undeclared keywords (none called `axis`) untouched, behind the keywords of the call -/
+theorem loopsCall_append (s : Sig) (c : Call) (junk : PDict) (hj : ∀ p ∈ junk, p.1 ∉ s.params)
+    (hax : ∀ p ∈ c.kw ++ junk, p.1 ≠ "axis") :
+    loopsCall s { c with kw := c.kw ++ junk } = { loopsCall s c with kw := (loopsCall s c).kw ++ junk } := by
+  have haxk : ∀ p ∈ c.kw, p.1 ≠ "axis" := fun p hp => hax p (by simp [hp])
+  have haxj : ∀ p ∈ junk, p.1 ≠ "axis" := fun p hp => hax p (by simp [hp])
+  cases c with
+  | mk args kw =>
+    unfold loopsCall
+    cases args with
+    | cons a as =>
+      simp only [popAxis_eq kw haxk, popAxis_eq (kw ++ junk) hax]
+    | nil =>
+      cases hp : s.params with
+      | nil => rfl
+      | cons top ps =>
+        have htop : ∀ p ∈ junk, p.1 ≠ top := fun p hpj he => hj p hpj (by rw [hp, he]; simp)
+        have hjl : junk.lookup top = none := lookup_none_of_not_key junk top htop
+        simp only [List.lookup_append, hjl, Option.or_none]
+        cases hl : kw.lookup top with
+        | none => rfl
+        | some arg =>
+          simp only [PDict.erase, popAxis, List.filter_append]
+          have h1 : junk.filter (fun p => p.1 != top) = junk := by
+            apply List.filter_eq_self.2
+            intro q hq
+            simpa using htop q hq
+          have h2 : junk.filter (fun p => p.1 != "axis") = junk := by
+            apply List.filter_eq_self.2
+            intro q hq
+            simpa using haxj q hq
+          rw [h1, h2]
+
+
+theorem hasIntArr_append_left (c : Call) (junk : PDict) (h : ({ c with kw := c.kw ++ junk } : Call).hasIntArr = false) :
+    c.hasIntArr = false := by
+  simp only [Call.hasIntArr, Bool.or_eq_false_iff] at h ⊢
+  refine ⟨h.1, (hasIntArrKVs_false_iff _).2 fun p hp => (hasIntArrKVs_false_iff _).1 h.2 p (by simp [hp])⟩
+
+
+/-- `kw` has every key of `p` (a subclass `__init__` passes its COMPLETE parameter set: `try_value.__init__` always passes
+`repeat, sleep, return_value, value, verbose`, `loops` its `types`, `pd2np` its `exc`) -/
+def Covers (kw p : PDict) : Prop := ∀ k, (p.lookup k).isSome → (kw.lookup k).isSome
+
+theorem update_covered_eqv (p kw : PDict) (hn : (kw.map (·.1)).Nodup) (hc : Covers kw p) :
+    PDict.Eqv (p.update kw) kw := by
+  intro k
+  rw [lookup_update_nodup _ _ hn]
+  cases hk : kw.lookup k with
+  | some v => simp
+  | none =>
+    cases hp : p.lookup k with
+    | none => simp
+    | some v =>
+      have := hc k (by simp [hp])
+      simp [hk] at this
+
+theorem covers_update (kw p u : PDict) (hu : (u.map (·.1)).Nodup) (h1 : Covers kw p) (h2 : Covers kw u) :
+    Covers kw (p.update u) := by
+  intro k hk
+  rw [lookup_update_nodup _ _ hu] at hk
+  cases hl : u.lookup k with
+  | some v => exact h2 k (by simp [hl])
+  | none =>
+    simp only [hl, Option.none_or] at hk
+    exact h1 k hk
+
+
+/-! ### memo fields and constructor in one model -/
+
+
+/-- which layers of a chain survive a constructor of class `cls`: the wrapper of the same class is cut out (`mk_chain`) -/
+def keepOf (cls : Cls) (ch : List (Cls × PDict)) : List Bool := ch.map fun w => w.1 != cls
+
+/-- a decorated function together with the memo field `function_fullargspec` of every wrapper object of its chain
+(outermost first) -/
+structure WFnM where
+  fn : WFn
+  memos : Memos
+
+/-- what a program does with a decorated function as far as specifications are concerned -/
+inductive WOp where
+  | wrap (cls : Cls) (kw : PDict)      -- apply a decorator: `mk` on the chain, `mkMemos` on the memo fields
+  | request (depth : Nat)              -- `getargspec` of the object `depth` levels below the top
+
+def WOp.run (base : Sig) : WOp → WFnM → WFnM
+  | .wrap cls kw, f => { fn := mk cls kw f.fn, memos := mkMemos (keepOf cls f.fn.chain) f.memos }
+  | .request d, f => { f with memos := f.memos.take d ++ fillMemos base (f.memos.drop d) }
+
+def WOp.wrapOf : WOp → Option (Cls × PDict)
+  | .wrap cls kw => some (cls, kw)
+  | .request _ => Option.none
+
+theorem kept_length (g : Cls × PDict → Bool) : ∀ (ch : List (Cls × PDict)) (ms : Memos), ms.length = ch.length →
+    ((ms.zip (ch.map g)).filter (·.2)).length = (ch.filter g).length
+  | [], ms, _ => by simp
+  | w :: ch, [], h => by simp at h
+  | w :: ch, m :: ms, h => by
+      have ih := kept_length g ch ms (by simpa using h)
+      cases hg : g w <;> simp [List.filter, hg, ih]
+
+theorem fillMemos_length (base : Sig) : ∀ ms : Memos, (fillMemos base ms).length = ms.length
+  | [] => rfl
+  | some _ :: _ => rfl
+  | Option.none :: rest => by simp [fillMemos, fillMemos_length base rest]
+
+theorem foldl_fn (base : Sig) : ∀ (ops : List WOp) (f : WFnM),
+    (ops.foldl (fun f op => op.run base f) f).fn = mkMany (ops.filterMap WOp.wrapOf) f.fn
+  | [], f => rfl
+  | op :: ops, f => by
+      simp only [List.foldl_cons]
+      rw [foldl_fn base ops]
+      cases op with
+      | wrap cls kw => simp [WOp.run, WOp.wrapOf, mkMany]
+      | request d => simp [WOp.run, List.filterMap_cons, WOp.wrapOf]
+
 end Pyg
